@@ -6,6 +6,7 @@ use tracing::trace;
 ///
 /// See [`MtuDiscoveryConfig`] for details
 #[derive(Clone)]
+#[cfg_attr(feature = "__verif", derive(Debug))]
 pub(crate) struct MtuDiscovery {
     /// Detected MTU for the path
     current_mtu: u16,
@@ -364,6 +365,7 @@ impl SearchState {
 /// When the number of suspicious loss bursts exceeds [`BLACK_HOLE_THRESHOLD`], we judge the
 /// evidence for an MTU black hole to be sufficient.
 #[derive(Clone)]
+#[cfg_attr(feature = "__verif", derive(Debug))]
 struct BlackHoleDetector {
     /// Packet loss bursts currently considered suspicious
     suspicious_loss_bursts: Vec<LossBurst>,
@@ -504,11 +506,13 @@ impl BlackHoleDetector {
 }
 
 #[derive(Copy, Clone)]
+#[cfg_attr(feature = "__verif", derive(Debug))]
 struct LossBurst {
     smallest_packet_size: u16,
 }
 
 #[derive(Copy, Clone)]
+#[cfg_attr(feature = "__verif", derive(Debug))]
 struct CurrentLossBurst {
     smallest_packet_size: u16,
     latest_non_probe: u64,
